@@ -434,6 +434,10 @@ def run(chk):
                     r1d.require(False, f"{f.key}|module-global:{s.value.func.value.id}", f.where(s), f"{f.qualname} mutates the module-level container `{s.value.func.value.id}`")
         r1d.inst(f"{m.name}|module-containers[{len(muts)}]")
 
+    # class-level mutable objects written through instances, class attributes rebound from methods (whole package)
+    from rules import classstate
+    classstate.report(chk, r1d, None, what="what a fit or prediction sees depends on what the process did before")
+
     # ------------------------------------------------------------------ R03.1e estimator state carried across fits
     r1e = chk.rule("R03.1e", "history independence of kept estimators: no warm_start / partial_fit — an estimator object stored on the model must start every fit from scratch", 2)
     n_est = 0
